@@ -1081,13 +1081,6 @@ func ReconcileStaging(repo gitstore.Storer, signCommit bool) error {
 		return err
 	}
 
-	if err := repo.SetReference(PolicyStagingRef, policyTip); err != nil {
-		return err
-	}
-	if err := rsl.NewReferenceEntry(PolicyStagingRef, policyTip).Commit(repo, signCommit); err != nil {
-		return err
-	}
-
 	// TODO: fix RSL entries for staging that are now orphaned
 
 	// This includes the changes made in staging + the controller changes
@@ -1098,7 +1091,27 @@ func ReconcileStaging(repo gitstore.Storer, signCommit bool) error {
 		repository:         repo,
 	}
 
-	return newStagingState.Commit(repo, "Rebase policy staging\n", true, signCommit)
+	// The rebased staging state is recorded in the RSL only once it is
+	// complete. If anything fails before that, staging is restored so that it
+	// still matches its latest RSL entry and the staged changes are not lost.
+	if err := repo.SetReference(PolicyStagingRef, policyTip); err != nil {
+		return err
+	}
+
+	if err := newStagingState.Commit(repo, "Rebase policy staging\n", false, signCommit); err != nil {
+		return repo.ResetDueToError(err, PolicyStagingRef, policyStagingTip)
+	}
+
+	newPolicyStagingTip, err := repo.GetReference(PolicyStagingRef)
+	if err != nil {
+		return repo.ResetDueToError(err, PolicyStagingRef, policyStagingTip)
+	}
+
+	if err := rsl.NewReferenceEntry(PolicyStagingRef, newPolicyStagingTip).Commit(repo, signCommit); err != nil {
+		return repo.ResetDueToError(err, PolicyStagingRef, policyStagingTip)
+	}
+
+	return nil
 }
 
 func (s *State) GetRootKeys() ([]tuf.Principal, error) {
